@@ -1,11 +1,188 @@
+/-
+  C08 — score decoding applies frame deltas exactly, independent of how they are cut.
+  Statements only; the proofs call DrxProofs/Vwsc*.lean.  Model: Drx/Vwsc.lean, Drx/VwscChannels.lean (+ generated
+  Drx/Gen/ScoreLayouts.lean); spec objects and encoders: Drx/VwscSpec.lean.
+-/
 import Drx.Vwsc
 import Drx.VwscSpec
-import DrxProofs.Py
+import DrxProofs.Vwsc
+import DrxProofs.VwscFields
+import DrxProofs.VwscFrames
 namespace Drx.C08
-open Drx Drx.Vwsc Drx.VwscLayout
+open Drx Drx.Vwsc Drx.Vwsc.Spec Drx.VwscLayout
+
+/-! ## the tie to the source: generated tables against the format -/
 
 /-- CHANNEL_PARSERS maps 20 to the Director-4 reader and 24 to the Director-5 reader, each with its own frame size -/
 theorem channelParsers_spec :
     Gen.Score.channelParsers = [(20, "D4VwscChannelParser", 20), (24, "D5VwscChannelParser", 24)] := by decide
+
+/-- the six straight-line readers, as translated from the source on this run, read every byte of what they read exactly
+    once, in increasing order (no gap, no overlap), and stay inside the frame -/
+theorem layouts_tile :
+    tiles Gen.Score.d4Main 0 20 = true ∧ tiles Gen.Score.d4Palette 0 18 = true ∧ tiles Gen.Score.d4Sprite 0 20 = true ∧
+    tiles Gen.Score.d5Main 0 24 = true ∧ tiles Gen.Score.d5Palette 0 12 = true ∧ tiles Gen.Score.d5Sprite 0 24 = true := by
+  decide
+
+/-- offsets, widths and signedness of the fields that reach the output, against the format notes (20-byte layout) -/
+theorem layout_d4_spec :
+    Gen.Score.d4Sprite = [("spriteType", ⟨0, .s16, .raw⟩), ("foregroundColor", ⟨2, .u8, .raw⟩), ("backgroundColor", ⟨3, .u8, .raw⟩),
+      ("flags", ⟨4, .u8, .raw⟩), ("ink_byte", ⟨5, .u8, .raw⟩), ("castId", ⟨6, .s16, .raw⟩), ("y", ⟨8, .s16, .raw⟩), ("x", ⟨10, .s16, .raw⟩),
+      ("height", ⟨12, .s16, .raw⟩), ("width", ⟨14, .s16, .raw⟩), ("flag1", ⟨16, .s16, .raw⟩), ("flag2", ⟨18, .s16, .raw⟩)] ∧
+    Gen.Score.d4Main_fps = ⟨4, .u8, .raw⟩ ∧ Gen.Score.d4Main_transition_id = ⟨5, .u8, .transition_name⟩ ∧
+    Gen.Score.d4Main_sound1_cast = ⟨6, .s16, .raw⟩ ∧ Gen.Score.d4Main_sound2_cast = ⟨8, .s16, .raw⟩ ∧ Gen.Score.d4Main_script = ⟨16, .s16, .raw⟩ ∧
+    Gen.Score.d4Palette_palette_id = ⟨0, .s16, .raw⟩ ∧ Gen.Score.d4Palette_cycles = ⟨8, .s16, .raw⟩ := by
+  decide
+
+/-- … and the 24-byte layout -/
+theorem layout_d5_spec :
+    Gen.Score.d5Sprite = [("unknown01", ⟨0, .u8, .raw⟩), ("ink_byte", ⟨1, .u8, .raw⟩), ("spriteType", ⟨2, .s16, .raw⟩), ("castId", ⟨4, .s16, .raw⟩),
+      ("unknown02", ⟨6, .s16, .raw⟩), ("unknown03", ⟨8, .s16, .raw⟩), ("foregroundColor", ⟨10, .u8, .raw⟩), ("backgroundColor", ⟨11, .u8, .raw⟩),
+      ("y", ⟨12, .s16, .raw⟩), ("x", ⟨14, .s16, .raw⟩), ("height", ⟨16, .s16, .raw⟩), ("width", ⟨18, .s16, .raw⟩), ("flag2", ⟨20, .s16, .raw⟩),
+      ("flag1", ⟨22, .s16, .raw⟩)] ∧
+    Gen.Score.d5Main_script = ⟨2, .s16, .raw⟩ ∧ Gen.Score.d5Main_sound1_cast = ⟨6, .s16, .raw⟩ ∧ Gen.Score.d5Main_sound2_cast = ⟨10, .s16, .raw⟩ ∧
+    Gen.Score.d5Main_fps = ⟨20, .s16, .raw⟩ ∧ Gen.Score.d5Palette_palette_id = ⟨2, .s16, .raw⟩ ∧ Gen.Score.d5Palette_cycles = ⟨10, .s16, .raw⟩ := by
+  decide
+
+/-! ## decode = fold of the deltas -/
+
+/-- **decode_is_fold** (data block). For every valid encoding — any layout, any channel count, any list of records, each
+    `same` or any list of in-range non-empty byte ranges (overlapping, redundant, in any order) — the decoded frames are
+    the fields of the successive channel states obtained by patching the zero buffer. -/
+theorem decode_is_fold (f : ScoreFile) (h : f.Valid) :
+    parseVwsc (serialise f) = expectedFrames f.lay (zeros f.bufSize) f.recs :=
+  parseVwsc_serialise f h
+
+/-- **decode_is_fold** through `parse_vwsc_file_data`: bare data block followed by any bytes, or wrapped in the DIR
+    wrapper with any marker table and trailing bytes -/
+theorem decode_is_fold_file (c : Container) (f : ScoreFile) (h : f.Valid) (hc : c.Valid (serialise f)) :
+    parseVwscFile (c.apply (serialise f)) = expectedFrames f.lay (zeros f.bufSize) f.recs :=
+  parseVwscFile_container c f h hc
+
+/-- frame `k` (0-based) is the decoding of the zero buffer with the deltas of records `0..k` applied in order; a `same`
+    record contributes no delta, so it repeats the previous frame — also in first position -/
+theorem decode_frame_k (c : Container) (f : ScoreFile) (h : f.Valid) (hc : c.Valid (serialise f)) (frames : List Frame)
+    (hp : parseVwscFile (c.apply (serialise f)) = .ok frames) (k : Nat) (hk : k < f.recs.length) :
+    ∃ fr, frames[k]? = some fr ∧ parseChannels f.lay (applyAll (zeros f.bufSize) (f.recs.take (k + 1))) = .ok fr := by
+  rw [decode_is_fold_file c f h hc, ← framesOf_eq_expected] at hp
+  exact framesOf_getElem? f.lay _ f.recs frames hp k hk
+
+/-- one frame per record -/
+theorem decode_frame_count (c : Container) (f : ScoreFile) (h : f.Valid) (hc : c.Valid (serialise f)) (frames : List Frame)
+    (hp : parseVwscFile (c.apply (serialise f)) = .ok frames) : frames.length = f.recs.length := by
+  rw [decode_is_fold_file c f h hc, ← framesOf_eq_expected] at hp
+  exact framesOf_length f.lay _ f.recs frames hp
+
+/-- **encoding_independent**. Two valid encodings (different cuts, redundant ranges, overlaps, full rewrites, `same`
+    versus explicit rewrites, different header words, wrapped or not) that denote the same buffer sequence decode to
+    identical results. -/
+theorem encoding_independent (c₁ c₂ : Container) (f₁ f₂ : ScoreFile) (h₁ : f₁.Valid) (h₂ : f₂.Valid)
+    (hc₁ : c₁.Valid (serialise f₁)) (hc₂ : c₂.Valid (serialise f₂)) (hlay : f₁.lay = f₂.lay)
+    (hseq : states (zeros f₁.bufSize) f₁.recs = states (zeros f₂.bufSize) f₂.recs) :
+    parseVwscFile (c₁.apply (serialise f₁)) = parseVwscFile (c₂.apply (serialise f₂)) := by
+  rw [decode_is_fold_file c₁ f₁ h₁ hc₁, decode_is_fold_file c₂ f₂ h₂ hc₂]
+  unfold expectedFrames
+  rw [hseq, hlay]
+
+/-! ## fields -/
+
+/-- **fields_roundtrip**, 20-byte layout: a channel buffer laid out as main ++ palette ++ sprites (any number of sprite
+    channels, every field over its whole range) decodes to exactly the views of the records -/
+theorem fields_roundtrip_d4 (fr : RawFrameD4) (h : fr.Valid) : parseChannels .d4 (encFrameD4 fr) = .ok (viewFrameD4 fr) :=
+  parseChannels_d4 fr h
+
+/-- **fields_roundtrip**, 24-byte layout -/
+theorem fields_roundtrip_d5 (fr : RawFrameD5) (h : fr.Valid) : parseChannels .d5 (encFrameD5 fr) = .ok (viewFrameD5 fr) :=
+  parseChannels_d5 fr h
+
+/-- end to end, 20-byte layout: if the encoding denotes the buffers of the raw frames `raws`, the file decodes to their views -/
+theorem decode_fields_d4 (c : Container) (f : ScoreFile) (h : f.Valid) (hc : c.Valid (serialise f)) (hl : f.lay = .d4)
+    (raws : List RawFrameD4) (hr : ∀ r ∈ raws, r.Valid) (hseq : states (zeros f.bufSize) f.recs = raws.map encFrameD4) :
+    parseVwscFile (c.apply (serialise f)) = .ok (raws.map viewFrameD4) := by
+  rw [decode_is_fold_file c f h hc, ← framesOf_eq_expected, hl]
+  -- decode each state: it is the layout of some valid raw frame
+  have key : ∀ (raws : List RawFrameD4), (∀ r ∈ raws, r.Valid) → ∀ buf recs, states buf recs = raws.map encFrameD4 →
+      framesOf .d4 buf recs = .ok (raws.map viewFrameD4) := by
+    intro raws
+    induction raws with
+    | nil =>
+      intro _ buf recs hs
+      cases recs with
+      | nil => rfl
+      | cons r rs => simp [states] at hs
+    | cons x xs ih =>
+      intro hv buf recs hs
+      cases recs with
+      | nil => simp [states] at hs
+      | cons r rs =>
+        simp only [states, List.map_cons, List.cons.injEq] at hs
+        obtain ⟨h1, h2⟩ := hs
+        rw [h1] at h2
+        simp only [framesOf, h1, parseChannels_d4 x (hv x (by simp)), List.map_cons]
+        rw [ih (fun r hr' => hv r (by simp [hr'])) _ rs h2]
+  exact key raws hr _ _ hseq
+
+/-- end to end, 24-byte layout -/
+theorem decode_fields_d5 (c : Container) (f : ScoreFile) (h : f.Valid) (hc : c.Valid (serialise f)) (hl : f.lay = .d5)
+    (raws : List RawFrameD5) (hr : ∀ r ∈ raws, r.Valid) (hseq : states (zeros f.bufSize) f.recs = raws.map encFrameD5) :
+    parseVwscFile (c.apply (serialise f)) = .ok (raws.map viewFrameD5) := by
+  rw [decode_is_fold_file c f h hc, ← framesOf_eq_expected, hl]
+  have key : ∀ (raws : List RawFrameD5), (∀ r ∈ raws, r.Valid) → ∀ buf recs, states buf recs = raws.map encFrameD5 →
+      framesOf .d5 buf recs = .ok (raws.map viewFrameD5) := by
+    intro raws
+    induction raws with
+    | nil =>
+      intro _ buf recs hs
+      cases recs with
+      | nil => rfl
+      | cons r rs => simp [states] at hs
+    | cons x xs ih =>
+      intro hv buf recs hs
+      cases recs with
+      | nil => simp [states] at hs
+      | cons r rs =>
+        simp only [states, List.map_cons, List.cons.injEq] at hs
+        obtain ⟨h1, h2⟩ := hs
+        rw [h1] at h2
+        simp only [framesOf, h1, parseChannels_d5 x (hv x (by simp)), List.map_cons]
+        rw [ih (fun r hr' => hv r (by simp [hr'])) _ rs h2]
+  exact key raws hr _ _ hseq
+
+/-! ## the hypotheses are satisfiable on non-trivial objects -/
+
+/-- a 3-channel 20-byte score: leading `same`, overlapping + redundant ranges, `same` in the middle, a range ending at the last byte -/
+def exFile : ScoreFile :=
+  ⟨.d4, 3, 4, 0, -1, [.same, .deltas [(0, [0, 0, 0, 0, 12]), (3, [9, 9]), (46, [0, 7]), (4, [12])], .same, .deltas [(59, [255])]]⟩
+
+/-- the same buffer sequence, cut differently: full rewrites and no `same` record -/
+def exFile' : ScoreFile :=
+  ⟨.d4, 3, 0, 5, 5, [.deltas [(7, [0])], .deltas [(0, applyAll (zeros 60) (exFile.recs.take 2))], .deltas [(4, [12]), (47, [7])],
+    .deltas [(58, [0, 255])]]⟩
+
+def exWrapper : Wrapper := ⟨0, 1, 2, 3, [10, 20], [1, 2, 3]⟩
+
+example : exFile.Valid := by decide
+example : exFile'.Valid := by decide
+example : (Container.wrapped exWrapper).Valid (serialise exFile) := by decide
+example : states (zeros exFile.bufSize) exFile.recs = states (zeros exFile'.bufSize) exFile'.recs := by decide
+example : exFile.recs ≠ exFile'.recs := by decide
+
+/-- so the two files decode identically, one wrapped and one bare with trailing bytes -/
+example : parseVwscFile ((Container.wrapped exWrapper).apply (serialise exFile)) = parseVwscFile ((Container.bare [1, 2]).apply (serialise exFile')) :=
+  encoding_independent _ _ exFile exFile' (by decide) (by decide) (by decide) trivial rfl (by decide)
+
+def exSprite : RawSpriteD4 := ⟨16, 255, 0, 128, 0x48, 7, -1, 300, 32767, -32768, 0xFFFF, 0xC000⟩
+def exFrame : RawFrameD4 :=
+  ⟨⟨0, 0x85, 4, 12, 23, 7, 0, 0, 0, 0, 96, 0⟩, ⟨-101, 0, 0xA0, 30, 0, 5, 0, 0, 0, 0, 1, 2⟩, [exSprite, ⟨0, 0, 0, 0, 0, 0, 0, 0, 0, 0, 0, 0⟩]⟩
+
+example : exFrame.Valid := by
+  refine ⟨by decide, by decide, ?_⟩
+  intro s hs
+  simp only [exFrame, List.mem_cons, List.not_mem_nil, or_false] at hs
+  rcases hs with rfl | rfl <;> decide
+
+/-- the trails bit (bit 6 of the ink byte 0x48) and both flag bits are reported; the empty channel is reported empty -/
+example : (viewFrameD4 exFrame).score.map (Option.map fun s => (s.inkType, s.trails, s.moveable, s.editable)) = [some (8, 1, true, true), none] := by
+  decide
 
 end Drx.C08
